@@ -147,6 +147,9 @@ def run(ctx):
     ctx.rule('R09a2', 'no attribute store on a receiver that denotes a shared object (spec, '
                       'parsing_state, latex_walker, latex_context, parser, ...) outside '
                       'constructor-time helpers', 1)
+    ctx.rule('R09e', 'the (frozen, shared) context database is not written while parsing: every method that '
+                     'writes its lookup state raises first when frozen, so lookups (get_*_spec, '
+                     'test_for_specials) cannot record what one document asked for (C14 M3)', 4)
     ctx.rule('R09b', 'module-level containers (outside latexencode/latex2text, see C04) are written only by the memo idiom '
                      '`if k not in D: D[k] = ctor(...)`, and everything the stored value is built '
                      'from flows into the key', 1)
@@ -318,6 +321,10 @@ def run(ctx):
     _module_state(ctx, repo, 'R09b', lambda name: not name.startswith(
         ('pylatexenc.latexencode', 'pylatexenc.latex2text')))
     _mutable_defaults(ctx, repo)
+    # R09e: the context database is shared between parses: its lookups write nothing, and every
+    # method that does write refuses to once the database is frozen (C14 M3)
+    from . import c14, c05
+    c14.run(c05._filtered(c05._Sub(ctx, 'R09e'), ('M3',)))
     _db_mutators(ctx, repo)
 
     # extended_with() is called while parsing (ParsingStateDeltaExtendLatexContextDb): the
